@@ -228,7 +228,7 @@ def ob_make1dgrid(env):
         env.claim("strictly_monotone", all(up) or all(dn))
 
 
-def _mk_descriptor(kind):
+def _mk_descriptor(kind, psi_sign=1.0):
     """the real describeSingleNull/DoubleNull hand the same dpsidi_sep to both sides of every separatrix and adjoining segments
     share the separatrix psi"""
     def body(env):
@@ -236,9 +236,14 @@ def _mk_descriptor(kind):
         captured = {}
         orig = c08.build
 
-        eq, mesh, t, sym = c08.build(env, kind, 0, False, capture=captured)
+        eq, mesh, t, sym = c08.build(env, kind, 0, False, capture=captured, psi_sign=psi_sign)
         segs = captured["segments"]
         env.witness("descriptor_built")
+        # the separatrix gradient points in the direction in which psi runs through the segments (needed for a monotone radial grid)
+        for sname, d in segs.items():
+            for key in ("grad_start", "grad_end"):
+                if key in d:
+                    env.claim("separatrix_gradient_has_the_sign_of_the_segment's_psi_direction:%s" % sname, (d[key] * (d["psi_end"] - d["psi_start"])) > 0)
         psi_sep = eq.psi_sep
         # adjoining radial segments of every poloidal region share their boundary psi value, and private-flux segments end at the psi
         # of their own X-point.  (upper_pf2 / lower_pf2 are the tail of the gridded pf segment: they end where that segment ends.)
@@ -293,8 +298,8 @@ OBLIGATIONS.append(Ob("gridfunc_grad_both", ob_both, tier="quick", family="two-s
 OBLIGATIONS.append(Ob("make1dGrid", ob_make1dgrid, tier="quick", family="make1dGrid",
                       desc="returns 2n+1 strictly monotone values with faces at even indices and centres at midpoints, or raises exactly when faces are not strictly monotone",
                       encodes=["hypnotoad.core.equilibrium:Equilibrium.make1dGrid"], bounds="n in 1..3, face values real"))
-for _k in ("lsn", "usn", "cdn", "ldn", "udn"):
-    OBLIGATIONS.append(Ob("descriptor_separatrix_sharing_" + _k, _mk_descriptor(_k), tier="quick", family="descriptor",
+for _k, _sg in [(k, sg) for k in ("lsn", "usn", "cdn", "ldn", "udn") for sg in (1.0, -1.0)]:
+    OBLIGATIONS.append(Ob("descriptor_separatrix_sharing_" + _k + ("" if _sg > 0 else "_psi_decreasing"), _mk_descriptor(_k, _sg), tier="quick", family="descriptor",
                           desc="both sides of each separatrix receive the same dpsidi_sep and adjoining segments share the separatrix psi value",
                           encodes=["hypnotoad.cases.tokamak:TokamakEquilibrium.describeSingleNull", "hypnotoad.cases.tokamak:TokamakEquilibrium.describeDoubleNull"],
                           stubs=["findLegs", "segmentsWithPsivals (captures its argument)"], bounds="sizes symbolic >= 1"))
